@@ -13,6 +13,7 @@ import (
 	"sort"
 	"strconv"
 	"strings"
+	"time"
 
 	"verif/harness/gw"
 	"verif/harness/lib"
@@ -120,6 +121,9 @@ type Op struct {
 	On     bool
 	Bypass bool
 	Now    int64
+	Mode   string // lock: "" | "G" | "C"
+	Days   int
+	Until  int64
 }
 
 func hx(s string) string { return lib.HexS(s) }
@@ -284,6 +288,16 @@ func (o *Op) ModelLine(obs *Obs) string {
 		a = []string{hx(o.B), hx(o.K), showKVs(o.Tags)}
 	case "getObjectTagging", "deleteObjectTagging":
 		a = []string{hx(o.B), hx(o.K)}
+	case "listVersions", "getLockConfig":
+		a = []string{hx(o.B)}
+	case "putLockConfig":
+		a = []string{hx(o.B), b01(o.On), opt(o.Mode), strconv.Itoa(o.Days)}
+	case "putRetention":
+		a = []string{hx(o.B), hx(o.K), hx(o.Vid), fmt.Sprintf("%s:%d", o.Mode, o.Until), b01(o.Bypass)}
+	case "getRetention", "getLegalHold":
+		a = []string{hx(o.B), hx(o.K), hx(o.Vid)}
+	case "putLegalHold":
+		a = []string{hx(o.B), hx(o.K), hx(o.Vid), b01(o.On)}
 	}
 	return fmt.Sprintf("gw step %s %d %s %s", caller, o.Now, o.Kind, strings.Join(a, " "))
 }
@@ -422,6 +436,13 @@ func (w *World) putHeaders(r *gw.Req, p *PutSpec) {
 	}
 	if p.Hold {
 		r.Set("x-amz-object-lock-legal-hold", "ON")
+	}
+	if p.Retention != "" {
+		var m string
+		var t int64
+		fmt.Sscanf(strings.Replace(p.Retention, ":", " ", 1), "%s %d", &m, &t)
+		r.Set("x-amz-object-lock-mode", lockModeName(m))
+		r.Set("x-amz-object-lock-retain-until-date", time.Unix(t, 0).UTC().Format(time.RFC3339))
 	}
 }
 
@@ -640,7 +661,17 @@ func (w *World) Exec(o *Op) *Obs {
 		if o.Bypass {
 			req.Set("x-amz-bypass-governance-retention", "true")
 		}
-		fields = func(r gw.Resp) { obs.NewVid = r.Headers.Get("x-amz-version-id") }
+		fields = func(r gw.Resp) {
+			obs.NewVid = r.Headers.Get("x-amz-version-id")
+			dm := "false"
+			if r.Headers.Get("x-amz-delete-marker") == "true" {
+				dm = "true"
+			}
+			obs.Fields = append(obs.Fields, KV{"deletemarker", dm}, KV{"vid", hx(obs.NewVid)})
+			if o.Vid != "" {
+				obs.NewVid = ""
+			}
+		}
 	case "deleteObjects":
 		req.Method, req.Path, req.Query = "POST", bpath, "delete"
 		var b bytes.Buffer
@@ -663,6 +694,7 @@ func (w *World) Exec(o *Op) *Obs {
 			var dr struct {
 				Deleted []struct {
 					Key                   string `xml:"Key"`
+					VersionId             string `xml:"VersionId"`
 					DeleteMarkerVersionId string `xml:"DeleteMarkerVersionId"`
 				} `xml:"Deleted"`
 				Errors []struct {
@@ -671,19 +703,31 @@ func (w *World) Exec(o *Op) *Obs {
 				} `xml:"Error"`
 			}
 			xml.Unmarshal(r.Body, &dr)
+			// The answer lists successes and errors separately, so the request order of the outcomes
+			// is not observable: canonical form = sorted multiset of `key` / `key!code`. Ids of
+			// the delete markers created (entries requested without a version id) are collected
+			// in request order of their keys.
+			newByKey := map[string][]string{}
 			var d []string
 			for _, x := range dr.Deleted {
 				d = append(d, hx(x.Key))
-				obs.NewVids = append(obs.NewVids, x.DeleteMarkerVersionId)
+				if x.VersionId == "" && x.DeleteMarkerVersionId != "" && x.DeleteMarkerVersionId != "null" {
+					newByKey[x.Key] = append(newByKey[x.Key], x.DeleteMarkerVersionId)
+				}
+			}
+			for _, x := range dr.Errors {
+				d = append(d, hx(x.Key)+"!"+x.Code)
+			}
+			sort.Strings(d)
+			for _, kv := range o.Keys {
+				if kv[1] == "" {
+					if v := newByKey[kv[0]]; len(v) > 0 {
+						obs.NewVids = append(obs.NewVids, v[0])
+						newByKey[kv[0]] = v[1:]
+					}
+				}
 			}
 			obs.Fields = append(obs.Fields, KV{"deleted", strings.Join(d, ",")})
-			if len(dr.Errors) > 0 {
-				var e []string
-				for _, x := range dr.Errors {
-					e = append(e, hx(x.Key)+":"+x.Code)
-				}
-				obs.Fields = append(obs.Fields, KV{"errors", strings.Join(e, ",")})
-			}
 		}
 	case "copyObject":
 		req.Method, req.Path = "PUT", kpath
@@ -714,6 +758,139 @@ func (w *World) Exec(o *Op) *Obs {
 		fields = func(r gw.Resp) { obs.Fields = append(obs.Fields, KV{"tags", showKVs(parseTags(r.Body))}) }
 	case "deleteObjectTagging":
 		req.Method, req.Path, req.Query = "DELETE", kpath, "tagging"
+	case "listVersions":
+		req.Method, req.Path, req.Query = "GET", bpath, "versions"
+		fields = func(r gw.Resp) {
+			type ent struct {
+				Key          string `xml:"Key"`
+				VersionId    string `xml:"VersionId"`
+				IsLatest     bool   `xml:"IsLatest"`
+				ETag         string `xml:"ETag"`
+				Size         int64  `xml:"Size"`
+				LastModified string `xml:"LastModified"`
+			}
+			var lv struct {
+				Versions []ent `xml:"Version"`
+				Markers  []ent `xml:"DeleteMarker"`
+			}
+			xml.Unmarshal(r.Body, &lv)
+			// The XML groups versions and delete markers separately; canonical order is by key, then
+			// latest first, then descending LastModified/ULID is not comparable here: keep, per key,
+			// the latest first and the rest in the order given (versions before markers).
+			type row struct {
+				e      ent
+				marker bool
+			}
+			byKey := map[string][]row{}
+			var keys []string
+			add := func(e ent, m bool) {
+				if _, ok := byKey[e.Key]; !ok {
+					keys = append(keys, e.Key)
+				}
+				byKey[e.Key] = append(byKey[e.Key], row{e, m})
+			}
+			for _, e := range lv.Versions {
+				add(e, false)
+			}
+			for _, e := range lv.Markers {
+				add(e, true)
+			}
+			sort.Strings(keys)
+			var out []string
+			for _, k := range keys {
+				rows := byKey[k]
+				sort.SliceStable(rows, func(i, j int) bool {
+					if rows[i].e.IsLatest != rows[j].e.IsLatest {
+						return rows[i].e.IsLatest
+					}
+					return versionNewer(rows[i].e.VersionId, rows[j].e.VersionId)
+				})
+				for _, rw := range rows {
+					l, m, et, sz := "-", "V", hx(rw.e.ETag), rw.e.Size
+					if rw.e.IsLatest {
+						l = "L"
+					}
+					if rw.marker {
+						m, et, sz = "M", "-", 0
+					}
+					out = append(out, fmt.Sprintf("%s:%s:%s:%s:%s:%d", hx(rw.e.Key), hx(rw.e.VersionId), l, m, et, sz))
+				}
+			}
+			obs.Fields = append(obs.Fields, KV{"versions", strings.Join(out, ",")})
+		}
+	case "putLockConfig":
+		req.Method, req.Path, req.Query = "PUT", bpath, "object-lock"
+		var b bytes.Buffer
+		b.WriteString(`<ObjectLockConfiguration xmlns="http://s3.amazonaws.com/doc/2006-03-01/">`)
+		if o.On {
+			b.WriteString(`<ObjectLockEnabled>Enabled</ObjectLockEnabled>`)
+		}
+		if o.Mode != "" {
+			fmt.Fprintf(&b, `<Rule><DefaultRetention><Mode>%s</Mode><Days>%d</Days></DefaultRetention></Rule>`, lockModeName(o.Mode), o.Days)
+		}
+		b.WriteString(`</ObjectLockConfiguration>`)
+		req.Body = b.Bytes()
+	case "getLockConfig":
+		req.Method, req.Path, req.Query = "GET", bpath, "object-lock"
+		fields = func(r gw.Resp) {
+			var c struct {
+				Enabled string `xml:"ObjectLockEnabled"`
+				Mode    string `xml:"Rule>DefaultRetention>Mode"`
+				Days    int    `xml:"Rule>DefaultRetention>Days"`
+			}
+			xml.Unmarshal(r.Body, &c)
+			m := c.Mode
+			if m == "" {
+				m = "-"
+			}
+			obs.Fields = append(obs.Fields, KV{"enabled", strconv.FormatBool(c.Enabled == "Enabled")}, KV{"mode", m}, KV{"days", strconv.Itoa(c.Days)})
+		}
+	case "putRetention":
+		req.Method, req.Path, req.Query = "PUT", kpath, "retention"
+		if o.Vid != "" {
+			req.Query += "&versionId=" + gw.EncodeQueryValue(o.Vid)
+		}
+		req.Body = []byte(fmt.Sprintf(`<Retention xmlns="http://s3.amazonaws.com/doc/2006-03-01/"><Mode>%s</Mode><RetainUntilDate>%s</RetainUntilDate></Retention>`,
+			lockModeName(o.Mode), time.Unix(o.Until, 0).UTC().Format(time.RFC3339)))
+		if o.Bypass {
+			req.Set("x-amz-bypass-governance-retention", "true")
+		}
+	case "getRetention":
+		req.Method, req.Path, req.Query = "GET", kpath, "retention"
+		if o.Vid != "" {
+			req.Query += "&versionId=" + gw.EncodeQueryValue(o.Vid)
+		}
+		fields = func(r gw.Resp) {
+			var c struct {
+				Mode  string `xml:"Mode"`
+				Until string `xml:"RetainUntilDate"`
+			}
+			xml.Unmarshal(r.Body, &c)
+			t, _ := time.Parse(time.RFC3339, c.Until)
+			obs.Fields = append(obs.Fields, KV{"mode", c.Mode}, KV{"until", strconv.FormatInt(t.Unix(), 10)})
+		}
+	case "putLegalHold":
+		req.Method, req.Path, req.Query = "PUT", kpath, "legal-hold"
+		if o.Vid != "" {
+			req.Query += "&versionId=" + gw.EncodeQueryValue(o.Vid)
+		}
+		st := "OFF"
+		if o.On {
+			st = "ON"
+		}
+		req.Body = []byte(`<LegalHold xmlns="http://s3.amazonaws.com/doc/2006-03-01/"><Status>` + st + `</Status></LegalHold>`)
+	case "getLegalHold":
+		req.Method, req.Path, req.Query = "GET", kpath, "legal-hold"
+		if o.Vid != "" {
+			req.Query += "&versionId=" + gw.EncodeQueryValue(o.Vid)
+		}
+		fields = func(r gw.Resp) {
+			var c struct {
+				Status string `xml:"Status"`
+			}
+			xml.Unmarshal(r.Body, &c)
+			obs.Fields = append(obs.Fields, KV{"hold", c.Status})
+		}
 	default:
 		obs.Code = "HARNESS:unknown-op:" + o.Kind
 		return obs
@@ -729,6 +906,25 @@ func (w *World) Exec(o *Op) *Obs {
 		fields(r)
 	}
 	return obs
+}
+
+func lockModeName(m string) string {
+	if m == "C" {
+		return "COMPLIANCE"
+	}
+	return "GOVERNANCE"
+}
+
+// versionNewer orders version ids of one key, newest first: ULIDs sort by creation time; the
+// null version has no time in its id and is placed last among non-latest entries.
+func versionNewer(a, b string) bool {
+	if a == "null" || a == "" {
+		return false
+	}
+	if b == "null" || b == "" {
+		return true
+	}
+	return a > b
 }
 
 // NormaliseModel rewrites the model's response line so that it is comparable with Obs.Line():
